@@ -10,7 +10,7 @@ from .common import call
 
 PROP = "C13"
 LEVEL = "exploration"
-CASES = {"quick": 1200, "thorough": 60000}
+CASES = {"quick": 1200, "thorough": 600000}
 SHARDS = {"quick": 8, "thorough": 16}
 ANCHORS = [
     "api.py:Converter.from_extended_prefix_map", "api.py:Converter.from_priority_prefix_map", "api.py:Converter.from_prefix_map",
